@@ -446,6 +446,17 @@ fn resize_stream<F: Read + Write + Seek>(
         debug_assert_eq!(dir_entry.obj_type, ObjType::Stream);
         (dir_entry.start_sector, dir_entry.stream_len)
     };
+    // Refuse lengths that no chain can have before touching anything (the
+    // FAT cannot number more than MAX_REGULAR_SECTOR sectors).
+    let max_stream_len = (consts::MAX_REGULAR_SECTOR as u64)
+        * (minialloc.version().sector_len() as u64);
+    if new_stream_len > max_stream_len {
+        invalid_input!(
+            "Cannot resize stream to {} bytes (maximum is {} bytes)",
+            new_stream_len,
+            max_stream_len
+        );
+    }
     let new_start_sector = if old_start_sector == consts::END_OF_CHAIN {
         // Case 1: The stream has no existing chain.  We will allocate a new
         // chain that is all zeroes.
